@@ -95,6 +95,25 @@ def prims_for(case) -> dict:
         vals += list(walk(decode(b)))
     fr, ds, fd, rd, rex = [], [], [], [], []
     ints = [x for x in vals if type(x) is int and abs(x) < 40]
+    # close the float entries under the roundings a lax constraint can apply (two levels: lax_decimal_places then
+    # lax_max_digits), so that validators running on a rounded float find its repr / Decimal in the table
+    ks = set(ints) | set(range(0, 24))
+    floats = [x for x in vals if type(x) is float]
+    seen_f = set(map(repr, floats))
+    frontier = list(floats)
+    for _ in range(2):
+        nxt = []
+        for x in frontier:
+            for k in ks:
+                try:
+                    y = round(x, k)
+                except Exception:
+                    continue
+                if type(y) is float and repr(y) not in seen_f:
+                    seen_f.add(repr(y))
+                    nxt.append(y)
+        vals += nxt
+        frontier = nxt
     for x in vals:
         if type(x) is float:
             fr.append([encode(x)["f"], repr(x)])
@@ -102,7 +121,7 @@ def prims_for(case) -> dict:
                 fd.append([encode(x)["f"], encode(Decimal(str(x)))["d"]])
             except InvalidOperation:
                 fd.append([encode(x)["f"], None])
-            for k in set(ints) | {0, 1, 2}:
+            for k in set(ints) | set(range(0, 24)):   # every places value lax_max_digits/decimal_places can ask for
                 try:
                     rd.append([encode(x)["f"], str(k), encode(round(x, k))["f"]])
                 except Exception:
